@@ -6,6 +6,20 @@ for l in open('/verif/seeded/MATRIX.txt'):
     p=l.split(' ',3)
     if len(p)<3 or not p[2].startswith('exit='): continue
     mat.setdefault(p[0],[]).append({"check":p[1],"exit":int(p[2][5:]),"key":(p[3].strip().replace('key: ','') if len(p)>3 else '')})
+# fallback: the log of the last individual try of a seed (tools/try_seed.sh) where the matrix has no entry
+import time
+for f in glob.glob('/tmp/try_*.log'):
+    m=re.match(r'/tmp/try_(C\d\d-[A-D])_(C\d\d)\.log',f)
+    if not m: continue
+    seed,chk=m.group(1),m.group(2)
+    if any(r['check']==chk for r in mat.get(seed,[])): continue
+    txt=open(f,errors='replace').read()
+    viol='\nVIOLATION' in '\n'+txt
+    key=''
+    mm=re.search(r'^VIOLATION.*?\n(?:.*\n){0,3}?\s*key: (.*)$',txt,re.M)
+    if mm: key=mm.group(1)[:160]
+    rc=1 if viol else (2 if 'INCONCLUSIVE' in txt else 0)
+    mat.setdefault(seed,[]).append({"check":chk,"exit":rc,"key":key,"when":time.strftime('%Y-%m-%d %H:%M',time.localtime(os.path.getmtime(f)))+' (individual try)'})
 for d in sorted(glob.glob('/verif/seeded/*/')):
     s=os.path.basename(d.rstrip('/'))
     if not os.path.exists(d+'patch.diff'): continue
@@ -20,7 +34,7 @@ for d in sorted(glob.glob('/verif/seeded/*/')):
       "files_changed":a.get('files_changed',[]),
       "origin":"written by a fresh sub-agent that was given only the property text and a scratch worktree; confirmed by me: stable tests (403) pass with the patch, the agent's demonstration fails with it and passes without it",
       "how_to_run":"git -C /repo apply /verif/seeded/%s/patch.diff && (cd /verif && ./check <ID> --tier quick); git -C /repo checkout -- ."%s,
-      "what_i_ran":[{"command":"./check %s --tier quick (VERIF_SEED=1)"%r['check'],"exit":r['exit'],"violation_key":r['key']} for r in runs],
+      "what_i_ran":[{"command":"./check %s --tier quick (VERIF_SEED=1)"%r['check'],"exit":r['exit'],"violation_key":r['key'],"run":r.get('when','matrix run with the final checks')} for r in runs],
       "caught_by":caught,
     }
     json.dump(meta,open(d+'meta.json','w'),indent=1,ensure_ascii=False)
